@@ -33,7 +33,31 @@ def _replace_all(interp, args, kwargs):
     return C.EXTERNS["replace_all"](interp, args, kwargs)
 
 
+def _quant_in(is_all):
+    def f(interp, args, kwargs):
+        """all_in(L, lambda x: P) / any_in(L, lambda x: P): quantification over the members of a list (set view)"""
+        from .core import mem_fn
+        ctx = interp.ctx
+        lst, fn = args
+        if isinstance(lst, Cell):
+            if lst.sym is None:
+                ts = [ctx.zbool(ctx.truth(interp.call(fn, [x], {}))) for x in lst.conc]
+                if not ts:
+                    return is_all
+                return SV(BOOL, (z3.And if is_all else z3.Or)(*ts))
+            lst = lst.sym
+        ty = lst.ty
+        e = z3.Const(ctx.fresh_name("m"), sort_of(ty.args[0]))
+        body = ctx.zbool(ctx.truth(interp.call(fn, [ctx.wrap(e, ty.args[0])], {})))
+        m = mem_fn(ty)(lst.t, e)
+        if is_all:
+            return SV(BOOL, z3.ForAll([e], z3.Implies(m, body), patterns=[m]))
+        return SV(BOOL, z3.Exists([e], z3.And(m, body)))
+    return f
+
+
 SPEC_BUILTINS = {
+    "all_in": _quant_in(True), "any_in": _quant_in(False),
     "replace_all": _replace_all,
     "same_keys": lambda interp, args, kwargs: _keys_rel(interp, args[0], args[1], None, "same"),
     "map_eq_except_add": lambda interp, args, kwargs: _keys_rel(interp, args[0], args[1], args[2], "add"),
